@@ -162,7 +162,7 @@ pub fn run(run: &Run) {
     );
     run.assume("'DLT\\x01' has no border, so junk without a full pattern cannot create an earlier occurrence together with the message start");
     run.regressions(&replay);
-    run.random("resync", run.cases(60_000, 1_500_000), 0.4, strategy, check);
+    run.random("resync", run.cases(300_000, 5_000_000), 0.4, strategy, check);
 }
 
 pub fn replay(_section: &str, case: &Json) -> Option<CheckResult> {
